@@ -141,6 +141,41 @@ theorem discoverLoop_inv {disk : Disk} {iter : Pkg → List Pkg} (hi : IterOk di
         | fileMismatch => simp [hl] at h
 
 
+/-- the invariant at the end of a successful discovery -/
+theorem discover_inv {disk : Disk} {iter : Pkg → List Pkg} (hi : IterOk disk iter)
+    {order : List Pkg} (h : discover disk iter = .ok order) : DInv disk iter [] order := by
+  unfold discover at h
+  cases hl : disk.load rootName with
+  | unit decl imps =>
+    simp only [hl] at h
+    by_cases hd : decl = rootName
+    · rw [if_pos hd] at h
+      rw [hd] at hl
+      exact discoverLoop_inv hi _ _ _ _ h
+        { nodup := List.nodup_singleton _
+          loads := fun p hp => by
+            have : p = rootName := by simpa using hp
+            exact this ▸ ⟨imps, hl⟩
+          closed := fun p hp d hd => by
+            have : p = rootName := by simpa using hp
+            subst this
+            exact Or.inr (by simpa using hd)
+          reachO := fun p hp => by
+            have : p = rootName := by simpa using hp
+            exact this ▸ Reach.root
+          reachQ := fun q hq => by
+            have hq' : q ∈ iter rootName := by simpa using hq
+            have : q ∈ imps := by
+              have := ((hi rootName).2 q).1 hq'
+              rwa [importsOf_unit hl] at this
+            exact .step .root ⟨imps, hl, this⟩
+          root := by simp }
+    · rw [if_neg hd] at h; simp at h
+  | unreadable => simp [hl] at h
+  | noFiles => simp [hl] at h
+  | parse => simp [hl] at h
+  | fileMismatch => simp [hl] at h
+
 def weight : Load → Nat
   | .unit _ imps => imps.length
   | _ => 0
